@@ -151,6 +151,8 @@ def run(pid, tier, seed, njobs=None):
                    "non-trivial = more than 50 scheduled steps",
            "samples": [{"job": jobs[0]["threads"], "outcome": projected[0]["ev"][0]}] if projected else [],
            "outcomes": outcomes, "park_events": parks, "spin_events": spins, "rejected": len(v["rejected"])}
+    import explore
+    cov["bounded_exhaustive_exploration_tree_bins"] = explore.tree_leg(pid, tier, seed, verdict)
     tl = treelock_leg(pid, tier, seed, verdict)
     cov["treelock_step_conformance"] = tl
     cov["states"] = cov.get("states", 0) + tl["tlc_states"]
